@@ -126,7 +126,7 @@ func (exec *Executor) execAnyNode(
 	switch value := value.(type) {
 	case map[string]any:
 		return exec.executeAnyItem(
-			ctx, next, slices.Collect(maps.Values(value)), found, 1,
+			ctx, next, memberValues(value), found, 1,
 			node.First(), node.Last(), true, exec.autoUnwrap(),
 		)
 	case []any:
@@ -139,17 +139,26 @@ func (exec *Executor) execAnyNode(
 	return statusNotFound, nil
 }
 
+// memberValues returns the values of obj in the order of their keys, so that
+// neither the order of results nor the member an early exit meets first
+// depends on Go's randomized map iteration. It never returns nil.
+func memberValues(obj map[string]any) []any {
+	keys := slices.Sorted(maps.Keys(obj))
+	vals := make([]any, len(keys))
+	for i, k := range keys {
+		vals[i] = obj[k]
+	}
+	return vals
+}
+
 // collection converts v into a slice of values if it's either a map or a
 // slice. Otherwise it returns nil.
 func collection(v any) []any {
 	switch v := v.(type) {
 	case map[string]any:
-		// Just work with the values. Collect returns nil for an empty map,
-		// which callers would mistake for a scalar.
-		if vals := slices.Collect(maps.Values(v)); vals != nil {
-			return vals
-		}
-		return []any{}
+		// Just work with the values; never nil, which callers would mistake
+		// for a scalar.
+		return memberValues(v)
 	case []any:
 		return v
 	}
